@@ -189,13 +189,13 @@ func checkCase(c *Case, count bool) error {
 				}
 				if len(set) > 0 {
 					expect = "nomethod"
-					wantAllow = [][]string{setStr(set)}
-					if c.G.AutoOptions && !set[http.MethodOptions] {
-						// fox adds OPTIONS when automatic replies are enabled (pinned by its own tests); a strict reading
-						// of "exactly the other such methods" would not. Both are accepted.
+					if c.G.AutoOptions {
+						// With automatic OPTIONS replies enabled every such path also answers OPTIONS, and fox lists it
+						// (pinned by its own TestRouterWithAllowedMethodAndAutoOptions); "the other such methods" is read
+						// accordingly: OPTIONS is always part of the set then.
 						set[http.MethodOptions] = true
-						wantAllow = append(wantAllow, setStr(set))
 					}
+					wantAllow = [][]string{setStr(set)}
 				}
 			}
 		}
